@@ -11,6 +11,7 @@ import (
 	"os"
 	"strconv"
 	"sync"
+	"syscall"
 	"time"
 )
 
@@ -50,10 +51,16 @@ type World struct {
 	seq    uint64
 	chunks [][]Ev
 	start  time.Time
-	out    *bufio.Writer
 	file   *os.File
 	buf    []byte
+	// The streamed copy is a MAP_SHARED mapping of a sparse file: what was
+	// copied into it survives a process-fatal event (panic inside raft) without
+	// any write or flush system call per event.
+	mm    []byte
+	mmOff int
 }
+
+const mmSize = 1 << 30
 
 const chunkSize = 8192
 
@@ -64,9 +71,10 @@ func NewWorld(path string) *World {
 	w := &World{start: time.Now()}
 	if path != "" {
 		f, err := os.Create(path)
-		if err == nil {
-			w.file = f
-			w.out = bufio.NewWriterSize(f, 1<<16)
+		if err == nil && f.Truncate(mmSize) == nil {
+			if mm, err := syscall.Mmap(int(f.Fd()), 0, mmSize, syscall.PROT_READ|syscall.PROT_WRITE, syscall.MAP_SHARED); err == nil {
+				w.file, w.mm = f, mm
+			}
 		}
 	}
 	return w
@@ -86,31 +94,25 @@ func (w *World) Log(e Ev) uint64 {
 	}
 	n := len(w.chunks) - 1
 	w.chunks[n] = append(w.chunks[n], e)
-	if w.out != nil {
+	if w.mm != nil {
 		w.buf = appendEv(w.buf[:0], &e)
-		w.out.Write(w.buf)
-		// Flush often: a panic inside raft kills the process without warning.
-		if e.Seq%512 == 0 || flushKind(e.K) {
-			w.out.Flush()
+		if w.mmOff+len(w.buf) < len(w.mm) {
+			copy(w.mm[w.mmOff:], w.buf)
+			w.mmOff += len(w.buf)
 		}
 	}
 	w.mu.Unlock()
 	return e.Seq
 }
 
-func flushKind(k string) bool {
-	switch k[0] {
-	case 'm', 'L': // nemesis, lifecycle
-		return true
-	}
-	return false
-}
-
-// Flush forces the streamed copy to disk.
+// Flush trims the streamed copy to what was written.
 func (w *World) Flush() {
 	w.mu.Lock()
-	if w.out != nil {
-		w.out.Flush()
+	if w.mm != nil {
+		syscall.Munmap(w.mm)
+		w.mm = nil
+		w.file.Truncate(int64(w.mmOff))
+		w.file.Close()
 	}
 	w.mu.Unlock()
 }
@@ -226,14 +228,20 @@ func ReadEvents(path string) ([]Ev, error) {
 	}
 	defer f.Close()
 	var out []Ev
-	sc := bufio.NewScanner(f)
-	sc.Buffer(make([]byte, 1<<20), 1<<26)
-	for sc.Scan() {
+	rd := bufio.NewReaderSize(f, 1<<20)
+	for {
+		if c, err := rd.Peek(1); err != nil || c[0] == 0 {
+			break // end of file, or the zero padding of a log whose process died
+		}
+		b, err := rd.ReadBytes('\n')
+		if err != nil {
+			break
+		}
 		var e Ev
-		if err := json.Unmarshal(sc.Bytes(), &e); err != nil {
-			continue // a torn last line after a process-fatal event
+		if json.Unmarshal(b, &e) != nil {
+			break // a torn last line after a process-fatal event
 		}
 		out = append(out, e)
 	}
-	return out, sc.Err()
+	return out, nil
 }
